@@ -79,7 +79,7 @@ func (p *Prog) unitsFor(prop string) []*ssa.Function {
 		if fc.Inline {
 			continue // verified at every inlining site, not as a root
 		}
-		tagged := false
+		tagged := fc.Safety && hasTag(fc.SafetyTags, prop)
 		for _, c := range fc.Clauses {
 			if hasTag(c.Tags, prop) {
 				tagged = true
